@@ -76,12 +76,16 @@ CLAIMED = {
           "a single constraint's inverse flips membership; '*' has no inverse.",
           "Correspondence exhaustive over comparator patterns up to length 4 quick / 5 thorough on every scheme. The empty range is excluded (theorem).",
           "§7 C09", "Lean 4 proof (first-cut-above characterisation of interval unions) + decide over regenerated tables + correspondence"),
- "C10": P("A Lean model of VersionRange.normalize / from_versions (sorted(known), membership of each, grouping of maximal runs, one '=' or one "
-          "'>=,<=' pair per run, constructor sort) is tied to the real code on ranks for every scheme, and the property's clauses are evaluated on the "
-          "real result through the Lean spec (validate, denote). The theorems normalize_wf / normalize_members over this model are not proved yet at "
-          "this commit: the claim is a validated model, not a proof.",
-          "No Lean theorem yet for this property (membership theorem C04 and validation theorem C07 are used as oracles).",
-          "§7 C10", "Lean model + spec evaluated through the driver (translation validation); proof pending", level="translation_validation"),
+ "C10": P("Lean 4 theorems over a model of VersionRange.normalize / from_versions (sorted(known) with the real '<', membership of each with the real "
+          "__contains__, grouping of maximal runs, one '=' or one '>=,<=' pair per run, constructor sort): for EVERY well-formed version-sorted range, "
+          "every finite list of known versions (any order, duplicates) and every lawful scheme, normalize never raises, validation accepts the result, "
+          "it is empty exactly when no known version is a member, it contains a known version exactly when the original does, every bound is a known "
+          "member, the blocks are strictly increasing and separated by a known non-member (maximal runs), two ranges agreeing on the known versions "
+          "give the same result, and two lists with the same elements give the same comparators on equal versions (uniqueness of the canonical block "
+          "list); from_versions contains exactly the versions equal to a listed one.",
+          "The model takes constructed versions (text-to-version is C11/C16); version_class(str) of the known versions is outside the theorem and "
+          "covered by the correspondence.",
+          "§7 C10", "Lean 4 proof (block-builder invariant, canonical block list uniqueness) + correspondence on ranks for every scheme"),
  "C11": P("Per version class, a Lean model `construct` of normalize + is_valid + build_value with every escaping exception explicit, and `str`; "
           "theorems: nothing but InvalidVersion escapes (construct_declared), every constructed value is well-formed (construct_wf) and "
           "construct (str r) = ok r for well-formed r (str_roundtrip) — all schemes; rpm with a recorded exception (K05). Seven defects repaired "
